@@ -214,7 +214,7 @@ func (g *G) Doc() string {
 	case g.R.P(8):
 		return g.Deep(50 + g.R.Intn(400))
 	case g.R.P(2) && !g.NoHuge:
-		return g.Deep(2000 + g.R.Intn(1000))
+		return g.Deep(1000 + g.R.Intn(1500))
 	case g.R.P(550):
 		return g.ws() + g.Object(d) + g.ws()
 	default:
